@@ -1,5 +1,5 @@
 (* Wire glue for C14 (ops 14xx): universal value -> terminal-mode spec, renderer life-cycle model,
-   constrain model/spec, temp-file ledger model. *)
+   constrain model/spec, temp-file ledger model, --tmux proxy file model. *)
 From Fzf Require Import Prelude Val TermSpec TermModel.
 Open Scope Z_scope.
 
@@ -54,4 +54,12 @@ Definition dispatch_term (op : Z) (a : val) : option val :=
     (* the bytes Init alone writes/queues: [out, queued] *)
     let c := as_cfg a in let st := r_init c (init_state c) in
     Some (VL [vstr (r_out st); vstr (r_queued st)])
+  else if op =? 1408 then
+    (* runProxy: [stdin_tty, out_ok, in_ok, builder_ok, child status, exiterr, inner_become, ttyin_ok]
+       -> [files while the popup is open, files left, exit status (-1: exec), exec'd, spec verdict on the files left] *)
+    let e := mkPenv (as_bool (arg a 0)) (as_bool (arg a 1)) (as_bool (arg a 2)) (as_bool (arg a 3)) (as_int (arg a 4))
+                    (as_bool (arg a 5)) (as_bool (arg a 6)) (as_bool (arg a 7)) in
+    let r := run_proxy e in
+    Some (VL [VL (map (fun f => VI (pfile_code f)) (pr_live r)); VL (map (fun f => VI (pfile_code f)) (pr_left r));
+              VI (pr_code r); vbool (pr_exec r); vbool (proxy_clean (pr_left r))])
   else None.
